@@ -782,7 +782,8 @@ def _remove_spaces_at_end_of_the_line(collection):
     for idx, node in enumerate(collection):
         if (
             idx > 0
-            and node._type == _InstructionNode.BREAK
+            and (node._type == _InstructionNode.BREAK
+                 or node.requires_repositioning())
             and collection[idx - 1].is_text_node()
             and collection[idx - 1].text
         ):
